@@ -1,14 +1,17 @@
-(* C02, the part that does NOT hold: IncSolver::solve() does not always return the optimum when it is called again
-   after desired positions changed.  Its loop (solve_VPSC.cpp:217-226) stops as soon as one satisfy() leaves the cost
-   unchanged to 1e-4; a satisfy() that splits a block on one constraint and re-merges it over another tight
-   constraint reproduces the same positions and cost although a second active constraint still has a negative
-   multiplier (only one split per block per pass).  The faithful model exhibits it; the witness below is replayed on
-   the real code by checks/c02.py (corpus/c02_cost_stall.txt): real result cost 4.978261, optimum 4.25. *)
+(* C02, a part that did NOT hold before /repo 676ca34: IncSolver::solve() did not always return the optimum.
+   Its loop `while(fabs(lastcost-cost)>0.0001)` stopped as soon as one satisfy() left the cost unchanged; a
+   satisfy() that splits a block on one constraint and re-merges it over another tight constraint reproduces the same
+   positions and cost although a second active constraint still has a negative multiplier (one split per block per
+   pass).  The model of the OLD loop (solve_loop false) exhibits it; the witness was replayed on the real code (real
+   result cost 4.978261, optimum 4.25) and is kept in corpus/c02_cost_stall.txt.  The current loop (fixed = true:
+   `|| splitCnt>0`, 100 tries) returns the optimum on the same witnesses (Examples at the end). *)
 From Adapt Require Import Num.Qaux Vpsc.VpscSpec Vpsc.KKT Vpsc.VpscModel.
 Local Open Scope Q_scope.
 
-Definition run_ops (fuel : nat) (s : st) (ops : list op) : res st :=
-  fold_left (fun r o => bind r (fun s' => step fuel s' o)) ops (Ok s).
+Definition run_ops_gen (fixed : bool) (fuel : nat) (s : st) (ops : list op) : res st :=
+  fold_left (fun r o => bind r (fun s' => step_gen fixed fuel s' o)) ops (Ok s).
+Definition run_ops := run_ops_gen true.
+Definition run_ops_before_fix := run_ops_gen false.
 
 Definition w_vs : list var := [mkvar 2 10 1; mkvar 2 1 1; mkvar 0 1 1; mkvar 0 10 1; mkvar 0 1 1].
 Definition w_cs : list con :=
@@ -19,7 +22,7 @@ Definition w_better : list Q := [2; 15#4; 0; 15#4; 19#4].
 Definition no_flag (s : st) : bool := negb (existsb (fun b => b) (cuns s)).
 
 Definition refutes (vs : list var) (cs : list con) (ops : list op) (y : list Q) : bool :=
-  match run_ops 1000 (init vs cs) ops with
+  match run_ops_before_fix 1000 (init vs cs) ops with
   | Ok s' => no_flag s'
              && forallb (holdsb (svars s') (place_of y)) (scons s')
              && Qltb (obj (svars s') (place_of y)) (obj (svars s') (place_of (final_positions s')))
@@ -28,20 +31,20 @@ Definition refutes (vs : list var) (cs : list con) (ops : list op) (y : list Q) 
 
 Lemma refutes_spec vs cs ops y :
   refutes vs cs ops y = true ->
-  exists s', run_ops 1000 (init vs cs) ops = Ok s' /\ no_flag s' = true /\
+  exists s', run_ops_before_fix 1000 (init vs cs) ops = Ok s' /\ no_flag s' = true /\
              feasible (svars s') (scons s') (place_of y) /\
              obj (svars s') (place_of y) < obj (svars s') (place_of (final_positions s')).
 Proof.
-  unfold refutes. destruct (run_ops 1000 (init vs cs) ops) as [s'| |]; try discriminate.
+  unfold refutes. destruct (run_ops_before_fix 1000 (init vs cs) ops) as [s'| |]; try discriminate.
   rewrite !andb_true_iff, forallb_forall, Qltb_spec. intros [[A B] D].
   exists s'. repeat split; try assumption.
   intros c Hc. apply holdsb_spec. exact (B c Hc).
 Qed.
 
 (* the model's solve() returns Ok, flags nothing, and there is a feasible placement with a strictly smaller objective *)
-Theorem solve_optimal_refuted :
+Theorem solve_optimal_refuted_before_fix :
   exists vs cs ops s' y,
-    run_ops 1000 (init vs cs) ops = Ok s' /\ no_flag s' = true /\
+    run_ops_before_fix 1000 (init vs cs) ops = Ok s' /\ no_flag s' = true /\
     feasible (svars s') (scons s') (place_of y) /\
     obj (svars s') (place_of y) < obj (svars s') (place_of (final_positions s')).
 Proof.
@@ -52,7 +55,7 @@ Qed.
 
 (* how bad: the returned objective is 229/46 = 4.978..., the optimum 17/4 *)
 Example solve_optimal_refuted_values :
-  match run_ops 1000 (init w_vs w_cs) w_ops with
+  match run_ops_before_fix 1000 (init w_vs w_cs) w_ops with
   | Ok s' => Qeqb (obj (svars s') (place_of (final_positions s'))) (229#46)
              && Qeqb (obj (svars s') (place_of w_better)) (17#4)
   | _ => false
@@ -64,5 +67,27 @@ Example fresh_solve_is_optimal :
   match run_ops 1000 (init [mkvar 2 10 1; mkvar 2 1 1; mkvar 0 1 1; mkvar 4 10 1; mkvar 4 1 1] w_cs) [Solve] with
   | Ok s' => forallb (fun p => Qeqb (fst p) (snd p)) (combine (final_positions s') w_better)
   | _ => false
+  end = true.
+Proof. vm_compute. reflexivity. Qed.
+
+(* the current loop returns the optimum on the history witness ... *)
+Example fixed_solve_is_optimal_on_witness :
+  match run_ops 1000 (init w_vs w_cs) w_ops with
+  | Ok s' => forallb (fun p => Qeqb (fst p) (snd p)) (combine (final_positions s') w_better)
+  | _ => false
+  end = true.
+Proof. vm_compute. reflexivity. Qed.
+
+(* ... and on the fresh-solver witness found by the C20 check (renumbered ordering): old loop 1016/17 = 59.7647, new 176/3 *)
+Definition c20_vs : list var :=
+  [mkvar (1#4) 2 1; mkvar (1#4) 1 1; mkvar (1#4) 1 1; mkvar (1#4) 1 1; mkvar (1#4) 1 1; mkvar (1#4) 1 1; mkvar (1#4) 10 1].
+Definition c20_cs : list con :=   (* corpus/c02_cost_stall.txt, instance 900003 *)
+  [mkcon 4 5 0 false; mkcon 2 5 4 false; mkcon 3 6 4 false; mkcon 4 3 2 false; mkcon 4 6 1 false; mkcon 3 6 0 false;
+   mkcon 4 2 3 false; mkcon 0 5 4 false; mkcon 4 2 0 false; mkcon 1 6 1 false; mkcon 2 1 2 false].
+Example c20_before_and_after_fix :
+  match run_ops_before_fix 1000 (init c20_vs c20_cs) [Solve], run_ops 1000 (init c20_vs c20_cs) [Solve] with
+  | Ok s1, Ok s2 => Qeqb (obj c20_vs (place_of (final_positions s1))) (1016#17)
+                    && Qeqb (obj c20_vs (place_of (final_positions s2))) (176#3)
+  | _, _ => false
   end = true.
 Proof. vm_compute. reflexivity. Qed.
